@@ -28,7 +28,14 @@ fn hard_shape(g: &mut Sm) -> (String, f64) {
             // convex radial polygon
             loop {
                 let n = 3 + g.below(5) as usize;
-                let rs: Vec<f64> = (0..n).map(|_| (g.range(0.85, 1.0) * 100.).round() / 100.).collect();
+                let lo = *g.pick(&[0.85, 0.85, 0.5, 0.65]);
+                let rs: Vec<f64> = if g.chance(0.3) && n % 2 == 0 {
+                    // alternating radii (rhombus, alternating hexagon, ...)
+                    let r2 = (g.range(lo, 1.0) * 100.).round() / 100.;
+                    (0..n).map(|i| if i % 2 == 0 { 1. } else { r2 }).collect()
+                } else {
+                    (0..n).map(|_| (g.range(lo, 1.0) * 100.).round() / 100.).collect()
+                };
                 let dt = 2. * PI / n as f64;
                 let v: Vec<(f64, f64)> = rs.iter().enumerate().map(|(i, r)| (r * (i as f64 * dt).sin(), r * (i as f64 * dt).cos())).collect();
                 if is_convex(&v) {
@@ -144,7 +151,13 @@ fn pair_case(g: &mut Sm) -> String {
             (format!("polygon:{}", n), (0..n).map(|i| ((i as f64 * dt).sin(), (i as f64 * dt).cos())).collect())
         } else {
             loop {
-                let rs: Vec<f64> = (0..n).map(|_| (g.range(0.85, 1.0) * 100.).round() / 100.).collect();
+                let lo = *g.pick(&[0.85, 0.5, 0.65]);
+                let rs: Vec<f64> = if g.chance(0.4) && n % 2 == 0 {
+                    let r2 = (g.range(lo, 1.0) * 100.).round() / 100.;
+                    (0..n).map(|i| if i % 2 == 0 { 1. } else { r2 }).collect()
+                } else {
+                    (0..n).map(|_| (g.range(lo, 1.0) * 100.).round() / 100.).collect()
+                };
                 let dt = 2. * PI / n as f64;
                 let v: Vec<(f64, f64)> = rs.iter().enumerate().map(|(i, r)| (r * (i as f64 * dt).sin(), r * (i as f64 * dt).cos())).collect();
                 if is_convex(&v) {
@@ -221,6 +234,27 @@ fn c01_aligned(g: &mut Sm) -> String {
     )
 }
 
+fn lj2_case(g: &mut Sm) -> String {
+    let sg = |g: &mut Sm| -> f64 { *g.pick(&[1., 2., 1.275112, 0.5, 0.1, 5., 0.8, 3.3]) };
+    let ep = |g: &mut Sm| -> f64 { *g.pick(&[1., 1., 0.5, 2., 0.1, 5.]) };
+    let s1 = sg(g);
+    let e1 = ep(g);
+    let c1: Option<f64> = match g.below(4) { 0 => None, 1 => Some(2.5 * s1), 2 => Some(3.5), _ => Some(g.range(1.2, 6.)) };
+    let like = g.chance(0.6);
+    let (s2, e2, c2) = if like { (s1, e1, c1) } else { (sg(g), ep(g), if g.chance(0.5) { c1 } else { None }) };
+    // distances: log-uniform, the minimum 2^(1/6) sigma, and straddling the cutoff by a few ulps
+    let r = match (g.below(6), c1) {
+        (0, _) => 1.122462048309373 * s1 * (1. + g.range(-1e-3, 1e-3)),
+        (1, Some(c)) => c * (1. + *g.pick(&[-2.2e-16, 2.2e-16, -1e-12, 1e-12, -1e-6, 1e-6, 0.])),
+        (2, Some(c)) => c * g.range(1.0, 3.0),
+        _ => 10f64.powf(g.range(-0.5, 1.0)) * s1 * 0.6,
+    };
+    let common = if g.chance(0.5) {
+        format!(" common={}:{}:{}:{}", fmt_f(g.range(0., 2. * PI)), fmt_f(g.range(-3., 3.)), fmt_f(g.range(-3., 3.)), g.below(2))
+    } else { String::new() };
+    format!("mode=lj2 s1={} e1={} c1={} s2={} e2={} c2={} r={} th={}{}", fmt_f(s1), fmt_f(e1), fmt_fo(c1), fmt_f(s2), fmt_f(e2), fmt_fo(c2), fmt_f(r), fmt_f(g.range(0., 2. * PI)), common)
+}
+
 pub fn gen(focus: &str, seed: u64, count: u64) -> Vec<String> {
     let mut g = Sm::new(seed.wrapping_mul(2_000_003) ^ hash2(77, focus.bytes().map(|b| b as u64).sum()));
     let mut out = vec![];
@@ -230,6 +264,7 @@ pub fn gen(focus: &str, seed: u64, count: u64) -> Vec<String> {
             "C01" if g.chance(0.5) => c01_targeted(&mut g),
             "C01" if g.chance(0.5) => c01_aligned(&mut g),
             "C01a" => c01_aligned(&mut g),
+            "C13" if g.chance(0.7) => lj2_case(&mut g),
             "C13" | "C03" => {
                 let group = *g.pick(&GROUPS);
                 let shape = lj_shape(&mut g);
